@@ -135,13 +135,18 @@ def search(ctx, N, complex_too=True):
         rho = 1 / Fraction(ratio)
         seq = np.array([[float(Ls[c] + sum(As[c][j] * (h0 * rho ** i) ** (order + step * j) for j in range(Tu))) for c in range(ncols)] for i in range(length)])
         steps = np.array([[float(h0 * rho ** i)] * ncols for i in range(length)])
+        if k % 2:
+            # the same instance is first used on a (usually shorter) sequence: that call must leave nothing behind
+            ls = int(rng.integers(1, T + 2))
+            R(np.cos(np.arange(ls * ncols, dtype=float)).reshape(ls, ncols), np.full((ls, ncols), 0.1) * (1.0 / ratio) ** np.arange(ls)[:, None])
+            ctx.count(1, ('reused-instance', ls <= T))
         w = R.rule(length)
         out, err, st = R(seq, steps)
         ctx.count(1)
         key = 'ratio=%r,step=%d,order=%d,terms=%d,len=%d' % (ratio, step, order, T, length)
         rep = {'step_ratio': ratio, 'step': step, 'order': order, 'num_terms': T, 'length': length, 'L': [float(x) for x in Ls],
                'sequence': seq.tolist(), 'output': np.asarray(out).tolist(),
-               'how': 'Richardson(step_ratio, step, order, num_terms)(sequence, steps)'}
+               'how': 'Richardson(step_ratio, step, order, num_terms)(sequence, steps)' + ('; the same instance was called on a shorter sequence just before' if k % 2 else '')}
         if out.shape[0] != length - Tu or st.shape[0] != out.shape[0]:
             if ctx.violation('count', 'Richardson(%s): %d outputs for length %d with %d terms usable (expected %d)' % (key, out.shape[0], length, Tu, length - Tu), rep):
                 return
